@@ -5,7 +5,7 @@ plain Python list; accept/refuse decisions are compared with it on every transit
 """
 import itertools
 
-from .. import env, run
+from .. import env, run, sweep
 from .. import oracle as O
 from .. import state as S
 from ..oracle import Violation
@@ -14,6 +14,8 @@ from ..explore import bfs, Machine
 from ..machines import St
 
 import dd.autoref as _autoref
+import dd.bdd as _bdd
+import dd._copy as _copy
 
 PROP = 'C14'
 
@@ -252,7 +254,139 @@ def machines(tier):
     return out
 
 
+LEVEL_ROUTES = ('ctor', 'add_var', 'autoref-ctor', 'autoref-add_var', 'copy_vars', 'prefix')
+
+
+def task_levels(t):
+    """Orders handed over with EXPLICIT levels in every insertion order (the constructor with a
+    dict, add_var(name, level) one by one, dd._copy.copy_vars from a reordered manager, new
+    variables below a used prefix): every assignment of levels x every insertion order of k
+    names.  Between the calls the levels may have gaps; at the end they must form 0..n-1."""
+    _, k, route, focus = t
+    rep = run.Report()
+    rec = sweep.Rec(rep)
+    pool = ('x', 'y', 'z', 'w')[:k]
+    pre = ('p', 'q')
+    U = Universe(pre + pool)
+    for lv in itertools.permutations(range(k)):
+        for ins in itertools.permutations(range(k)):
+            if focus is not None and sweep.norm([lv, ins]) != sweep.norm(focus):
+                continue
+            case = dict(task=t[:-1] + ([list(lv), list(ins)],), route=route,
+                        levels=dict(zip(pool, lv)), insertion=[pool[i] for i in ins])
+            try:
+                off = 0
+                ext = {}
+                held = []
+                if route == 'ctor':
+                    m = S.new_bdd({pool[i]: lv[i] for i in ins})
+                elif route == 'autoref-ctor':
+                    am = _autoref.BDD({pool[i]: lv[i] for i in ins})
+                    m = am._bdd
+                elif route == 'add_var':
+                    m = S.new_bdd()
+                    for i in ins:
+                        if m.add_var(pool[i], lv[i]) != lv[i]:
+                            raise Violation('add_var returned another level than the one given')
+                        _partial_views(m)
+                elif route == 'autoref-add_var':
+                    am = S.new_autoref()
+                    m = am._bdd
+                    for i in ins:
+                        if am.add_var(pool[i], lv[i]) != lv[i]:
+                            raise Violation('add_var returned another level than the one given')
+                elif route == 'copy_vars':
+                    # source declared in insertion order `ins`, then sorted so that name i sits
+                    # at level lv[i]: its `vars` dict iterates in declaration order
+                    src = S.new_bdd({pool[i]: j for j, i in enumerate(ins)})
+                    _bdd.reorder(src, {pool[i]: lv[i] for i in range(k)})
+                    m = S.new_bdd()
+                    _copy.copy_vars(src, m)
+                else:
+                    off = 2
+                    m = S.new_bdd({'p': 0, 'q': 1})
+                    r = m.apply('xor', m.var('p'), m.var('q'))
+                    m.incref(r)
+                    held.append((r, U.var('p') ^ U.var('q')))
+                    ext[abs(r)] = 1
+                    for i in ins:
+                        m.add_var(pool[i], lv[i] + off)
+                        _partial_views(m)
+                want = {pool[i]: lv[i] + off for i in range(k)}
+                if off:
+                    want.update(p=0, q=1)
+                rep.add('evaluations')
+                if k > 1 and list(ins) != sorted(ins, key=lambda i: lv[i]):
+                    rep.add('nontrivial')
+                if dict(m.vars) != want:
+                    raise Violation('the declared levels are not the requested ones',
+                                    got=dict(m.vars), want=want)
+                O.check_order(m)
+                O.check(m, ext, U)
+                # the order is usable: variables, connectives, substitution, counting
+                b = sweep.Builder(m, U)
+                den = O.Den(m, U)
+                names = sorted(want, key=want.get)
+                acc_m, acc = 0, None
+                for x in names:
+                    vx = m.var(x)
+                    if den(vx) != U.var(x):
+                        raise Violation('var(x) denotes another function after the declarations')
+                    acc = vx if acc is None else m.apply('xor', acc, vx)
+                    acc_m ^= U.var(x)
+                if den(acc) != acc_m or acc != b(acc_m):
+                    raise Violation('a function built on the declared order is wrong or not '
+                                    'canonical')
+                conj = b.verified(U.var(names[0]) & U.var(names[-1]))
+                if m.apply('and', m.var(names[0]), m.var(names[-1])) != conj:
+                    raise Violation('apply and node-by-node construction disagree on the '
+                                    'declared order')
+                for r, f in held:
+                    if den(r) != f:
+                        raise Violation('a held reference changed when variables were declared')
+                O.check(m, ext, U)
+                # removing: nothing but the prefix function is referenced
+                m.collect_garbage()
+                m.undeclare_vars()
+                left = {v: l for v, l in want.items() if v in ('p', 'q')} if off else {}
+                if dict(m.vars) != left:
+                    raise Violation('undeclare_vars() did not remove exactly the unused '
+                                    'variables', got=dict(m.vars), want=left)
+                O.check_order(m)
+                O.check(m, ext, U)
+                if off:
+                    m.decref(held[0][0])
+                am = None
+            except Violation as e:
+                rec('levels:' + route + ':' + e.what, e.what, case, **e.detail)
+            except Exception as e:  # noqa
+                rec('levels-exception:%s:%s' % (route, type(e).__name__), 'raised %r' % (e,), case)
+    if focus is None:
+        rep.sample(dict(kind='explicit levels', route=route, names=k,
+                        cases='every assignment of levels x every insertion order'))
+    return rep
+
+
+def _partial_views(m):
+    """While levels may still have gaps: the views agree on the declared names."""
+    for v, l in m.vars.items():
+        if m.level_of_var(v) != l or m.var_at_level(l) != v:
+            raise Violation('level_of_var / var_at_level disagree with vars while declaring')
+    if dict(m.var_levels) != dict(m.vars):
+        raise Violation('var_levels differs from vars while declaring')
+
+
+def levels_plan(tier):
+    ks = (1, 2, 3) if tier == 'quick' else (1, 2, 3, 4)
+    ts = [('levels', k, route, None) for k in ks for route in LEVEL_ROUTES]
+    if tier == 'quick':
+        ts += [('levels', 4, route, None) for route in ('ctor', 'add_var', 'copy_vars')]
+    return ts
+
+
 def replay(case):
+    if 'task' in case:
+        return sweep.replay_by_task(task_levels)(case)
     for tier in ('thorough', 'quick'):
         for mm, _ in machines(tier):
             if mm.name == case['machine']:
@@ -262,6 +396,8 @@ def replay(case):
 
 def main(tier, t0):
     rep = run.Report()
+    run.pmerge(task_levels, levels_plan(tier), rep)
+    run.close_pool()
     total = dict(states=0, transitions=0, validated=0)
     bounds = {}
     for mach, depth in machines(tier):
@@ -276,6 +412,13 @@ def main(tier, t0):
     cov = dict(
         states=total['states'], transitions=total['transitions'],
         traces_validated_against_impl=total['validated'],
+        evaluations=rep.counts.get('evaluations', 0),
+        distinct_nontrivial=rep.counts.get('nontrivial', 0),
+        explicit_levels=('orders handed over with explicit levels: every assignment of levels x '
+                         'every insertion order of up to 4 names through the constructor, '
+                         'add_var(name, level), dd.autoref, dd._copy.copy_vars from a reordered '
+                         'manager, and below a used two-variable prefix; non-trivial = the '
+                         'insertion order is not the level order'),
         exhaustive=not rep.caps, bounds=bounds,
         explanation=(
             'alphabet: declare(x), add_var(x), add_var(x, level) with level in {own, another '
@@ -287,6 +430,7 @@ def main(tier, t0):
             'pool; deepest layer replayed from the constructor'))
     return run.finish(PROP, 'model_checking', tier, rep, t0, cov,
                       assumptions=['"used" = the level holds stored nodes (the documented meaning '
-                                   'in the docstring of undeclare_vars); add_var with a level '
-                                   'beyond the next free one is not generated'],
+                                   'in the docstring of undeclare_vars); in the BFS add_var with a '
+                                   'level beyond the next free one is not generated (the explicit-'
+                                   'levels sweep covers those calls)'],
                       replay_fn=replay)
